@@ -276,6 +276,30 @@ fn run_extreme(c: &Extreme, info: &mut CaseInfo) -> Result<(), Fail> {
         }
         Extreme::Bloom { which, seed } => {
             info.label(format!("bloom_extreme={which}"));
+            // thorough tier, once per process: a filter of more than 2^32 bits (legal up to about 2^37) whose set
+            // operations and dirty-image recount run past 2^32 set bits
+            static HUGE_DONE: std::sync::atomic::AtomicBool = std::sync::atomic::AtomicBool::new(false);
+            if std::env::var("VERIF_TIER_HINT").map(|t| t == "thorough").unwrap_or(false) && !HUGE_DONE.swap(true, std::sync::atomic::Ordering::SeqCst) {
+                info.label("bloom_2^32_bits");
+                let n = (1u64 << 32) + 64;
+                let mut a = BloomFilterBuilder::with_size(n, 1).seed(*seed).build();
+                a.insert(1u64);
+                a.invert();
+                let b = BloomFilterBuilder::with_size(n, 1).seed(*seed).build();
+                let mut u = a.clone();
+                u.union(&b);
+                let _ = (u.bits_used(), u.load_factor(), u.estimated_fpp(), u.is_empty());
+                u.intersect(&a);
+                let _ = u.bits_used();
+                drop(u);
+                // the same filter as a Java / C++ writer with a dirty count would emit it
+                let mut img = a.serialize();
+                img[24..32].copy_from_slice(&u64::MAX.to_le_bytes());
+                drop(a);
+                if let Ok(d) = datasketches::bloom::BloomFilter::deserialize(&img) {
+                    let _ = (d.bits_used(), d.is_empty());
+                }
+            }
             let mut f = match which % 6 {
                 0 => BloomFilterBuilder::with_size(1, 1).seed(*seed).build(),
                 1 => BloomFilterBuilder::with_size(1, 16).build(),
